@@ -53,7 +53,15 @@ def gen_scenario(r):
         head = ('CONNECT %s:443 HTTP/1.1\r\nHost: %s:443\r\n%s\r\n' % (tgt, tgt, extra)).encode()
         status = r.pick([200, 200, 200, 201, 403, 403, 502, 407, 404, 101])
     else:
-        head = ('GET /ws-%s HTTP/1.1\r\nHost: %s\r\nConnection: Upgrade\r\nUpgrade: websocket\r\n\r\n' % (nonce, host)).encode()
+        # the spellings real clients use (Firefox: "keep-alive, Upgrade"; h2c: "Upgrade, HTTP2-Settings"), header order and letter case
+        # vary; a 101 switches protocols whatever the request looked like (the statement makes no exception), so now and then the
+        # request carries no Upgrade / Connection field at all
+        conn = r.pick(['Upgrade', 'Upgrade', 'upgrade', 'keep-alive, Upgrade', 'Upgrade, HTTP2-Settings', 'Keep-Alive,Upgrade', 'UPGRADE', None])
+        upg = r.pick(['websocket', 'websocket', 'h2c', 'TLS/1.0', 'WebSocket', 'h2c, websocket', None if conn is None else 'websocket'])
+        hl = ([] if conn is None else ['Connection: ' + conn]) + ([] if upg is None else ['Upgrade: ' + upg])
+        hl += r.pick([[], [], ['Sec-WebSocket-Key: dGhlIHNhbXBsZSBub25jZQ==', 'Sec-WebSocket-Version: 13'], ['HTTP2-Settings: AAMAAABkAARAAAAAAAIAAAAA'], ['Origin: http://' + host]])
+        r.shuffle(hl)
+        head = ('%s /ws-%s HTTP/1.1\r\nHost: %s\r\n%s\r\n' % (r.pick(['GET', 'GET', 'GET', 'OPTIONS']), nonce, host, ''.join(h + '\r\n' for h in hl))).encode()
         status = 101
     sc['status'] = status
     reason = {200: 'Connection established', 201: 'Created', 403: 'Forbidden', 502: 'Bad Gateway', 407: 'Proxy Authentication Required', 404: 'Not Found', 101: 'Switching Protocols'}[status]
